@@ -108,13 +108,17 @@ def writeContract : List Nat → List OutObs → Bool
 
 /-! ### exclusion class of the one open finding (K15m) -/
 
+def isPanicOp : Op → Bool
+  | .panic => true
+  | _ => false
+
 /-- the handler writes, copies or flushes and panics afterwards: behind `[recovery, compression]`
     the recovery middleware's error body then follows a finished compressed stream -/
 def panicMidstream : List Op → Bool
   | [] => false
-  | .write _ :: os => os.any (fun o => match o with | .panic => true | _ => false)
-  | .copy _ :: os => os.any (fun o => match o with | .panic => true | _ => false)
-  | .flush :: os => os.any (fun o => match o with | .panic => true | _ => false)
+  | .write _ :: os => os.any isPanicOp
+  | .copy _ :: os => os.any isPanicOp
+  | .flush :: os => os.any isPanicOp
   | _ :: os => panicMidstream os
 
 end Rivaas.CompressSpec
